@@ -51,6 +51,11 @@ pub const DEPTH_OPS: &[&str] = &[
 pub const SHAPES: &[&str] = &["arrays", "objects", "alternating"];
 pub const LADDER: &[u64] = &[1, 2, 10, 100, 1_000, 10_000, 100_000, 300_000];
 pub const STACKS: &[u64] = &[8 << 20, 2 << 20];
+/// A thread given 1 GiB of stack (a host that sizes its worker stacks for deep documents): no operation runs out of
+/// stack at these depths on it, so what is left to go wrong is arithmetic on the nesting level itself -- a 16-bit
+/// level / indent counter passes 32,767 resp. 65,535 here.
+pub const BIG_STACK: u64 = 1 << 30;
+pub const BIG_STACK_DEPTHS: &[u64] = &[33_000, 66_000];
 /// dev = cargo's default dev profile (unoptimised, overflow checks, debug assertions: what `cargo build` and
 /// `cargo test` give a user); checked = optimised with the same checks; shipped = release defaults.
 pub const BUILDS: &[&str] = &["dev", "checked", "shipped"];
@@ -1051,6 +1056,18 @@ impl Limits {
                         for build in BUILDS {
                             v.push(Case::Depth { op: op.to_string(), shape: shape.to_string(), depth: *depth, stack: *stack, build: build.to_string() });
                         }
+                    }
+                }
+            }
+        }
+        for op in DEPTH_OPS {
+            for shape in SHAPES {
+                for depth in BIG_STACK_DEPTHS {
+                    if *op == "to_pretty_string" && *depth > PRETTY_MAX_DEPTH {
+                        continue;
+                    }
+                    for build in BUILDS {
+                        v.push(Case::Depth { op: op.to_string(), shape: shape.to_string(), depth: *depth, stack: BIG_STACK, build: build.to_string() });
                     }
                 }
             }
